@@ -48,6 +48,33 @@ def run(ctx):
         rt = _taint(W, src_call=lambda t_: call_matches(t_, r"state::relpath|state::realdirpath|std::fs::canonicalize|std::path::Path::canonicalize"), mode="derived")
         a0 = op_local(W.blocks[pdfw[0]]["term"]["args"][0])
         ok = a0 is not None and (a0 in rt or any(x in rt for x in wba.ref_chain(a0)))
+        # .. on *every* way the value can be produced (seed C13-12: canonicalize() with a lexical fall-back for a directory
+        # that does not exist yet, where the builder still resolves the part that exists): each definition of the operand
+        # goes back to the normaliser, none to the merely absolute spelling
+        SRC = r"state::relpath|state::realdirpath|std::fs::canonicalize|std::path::Path::canonicalize"
+        from core import rvalue_places as _rvp
+
+        def must_derive(l, depth=10, seen=None):
+            seen = seen if seen is not None else set()
+            if l is None or depth < 0 or l in seen:
+                return False
+            seen = seen | {l}
+            ds = [d for d in wba.defs.get(l, []) if d[0] in ("stmt", "call")]
+            if not ds:
+                return False
+            for d in ds:
+                if d[0] == "call":
+                    t_ = d[2]
+                    if call_matches(t_, SRC):
+                        continue
+                    if not any(must_derive(op_local(a_), depth - 1, seen) for a_ in t_["args"] if op_local(a_) is not None):
+                        return False
+                else:
+                    pls = [pl for pl in _rvp(d[3]) if pl is not None]
+                    if not pls or not any(must_derive(pl["l"], depth - 1, seen) for pl in pls):
+                        return False
+            return True
+        ok = ok and must_derive(a0)
         ctx.ob("R13.9", "%s|enumerated-path-is-symlink-resolved" % W.key, ok, where=ctx.where(W, pdfw[0]),
                detail="the path handed to possible_do_files derives from state::relpath (directory part canonicalised)" if ok else
                "redo-whichdo cleans its argument only lexically: for link/../foo.x (link -> deep/er) it lists ./foo.x.do .. ./default.do while redo builds deep/foo.x with deep/default.do")
